@@ -37,12 +37,13 @@ func namesUnderUpdate(r *vkit.R) {
 
 	kept := []string{"keep-1.io", "Keep-2.IO", "keep-3.example.com", "keep-4.local", "keep-5"}
 	volatile := []string{"x.io", "Y.io", "shared.Example.COM", "api.k8s.local", "tenant-1", "edge"}
+	var certVar int32 = 1 // alpha's serving certificate is rotated in place while the resolvers run
 	build := func(vol []string, shuffle bool) (*ObjSpec, []string) {
 		names := append(append([]string{}, kept...), vol...)
 		if shuffle {
 			g.Shuffle(names)
 		}
-		return &ObjSpec{Cluster: "alpha", Names: names, Cert: 1, CA: 1}, names
+		return &ObjSpec{Cluster: "alpha", Names: names, Cert: int(atomic.LoadInt32(&certVar)), CA: 1}, names
 	}
 	o, _ := build(nil, false)
 	if sr := gw.Apply(buildObject(o, stubA.URL)); sr.Requeue || sr.Err != nil || sr.Panic != nil {
@@ -78,6 +79,7 @@ func namesUnderUpdate(r *vkit.R) {
 	for _, n := range volatile {
 		volHosts = append(volHosts, strings.ToLower(n), strings.ToUpper(n)+":443")
 	}
+	volHosts = append(volHosts, "gamma", "GAMMA:6443", "gamma-alias.io")
 
 	var stop int32
 	var lookups, getconfigs, chainReqs int64
@@ -123,7 +125,8 @@ func namesUnderUpdate(r *vkit.R) {
 						id = whichCert(cfg.Certificates[0].Certificate[0])
 					}
 					want := map[string]string{"alpha": "alpha/1", "beta": "beta/2"}[m.cluster]
-					if id != want {
+					// alpha's certificate is being rotated between variants 1 and 2: before-or-after, never the base / another one
+					if id != want && !(m.cluster == "alpha" && id == "alpha/2") {
 						report("C10/names-under-update/kept-name-gets-other-certificate/getconfig", fmt.Sprintf("during update #%d GetConfigForClient(SNI %q), a name cluster %q has before and after the update, returned certificate %s instead of %s",
 							atomic.LoadInt64(&updateNo), m.host, m.cluster, id, want), map[string]interface{}{"sni": m.host, "certificate": id})
 					}
@@ -138,7 +141,11 @@ func namesUnderUpdate(r *vkit.R) {
 					}
 					if k%8 == 0 { // a name that updates add and remove: the cluster or nobody
 						h := volHosts[(k/8)%len(volHosts)]
-						if ci, ok := gw.Ctrl.Get(gatewaynet.HostWithoutPort(h)); ok && ci != nil && ci.Cluster != "alpha" {
+						allowed := "alpha"
+						if strings.HasPrefix(strings.ToLower(h), "gamma") {
+							allowed = "gamma" // the third cluster is deleted and created again all the time
+						}
+						if ci, ok := gw.Ctrl.Get(gatewaynet.HostWithoutPort(h)); ok && ci != nil && ci.Cluster != allowed {
 							report("C10/names-under-update/volatile-name-resolves-to-other-cluster", fmt.Sprintf("host %q resolved to %q", h, ci.Cluster), map[string]interface{}{"host": h})
 						}
 					}
@@ -147,7 +154,8 @@ func namesUnderUpdate(r *vkit.R) {
 		}()
 	}
 
-	overlapped := 0
+	overlapped, rotations, gammaToggles := 0, 0, 0
+	gammaLive := false
 	prev := ""
 	for u := 1; u <= nUpdates; u++ {
 		var vol []string
@@ -162,6 +170,23 @@ func namesUnderUpdate(r *vkit.R) {
 				prev = key
 				break
 			}
+		}
+		if u%7 == 0 {
+			atomic.StoreInt32(&certVar, 3-atomic.LoadInt32(&certVar))
+			rotations++
+		}
+		if u%5 == 0 {
+			// a third cluster is created / deleted next to the one being updated
+			if gammaLive {
+				gw.Delete("gamma")
+			} else if sr := gw.Apply(buildObject(&ObjSpec{Cluster: "gamma", Names: []string{"Gamma-Alias.io"}, Cert: 1, CA: 2}, stubB.URL)); sr.Requeue || sr.Err != nil || sr.Panic != nil {
+				atomic.StoreInt32(&stop, 1)
+				wg.Wait()
+				r.Inconclusive(fmt.Sprintf("names-under-update: third cluster not applied: %+v", sr))
+				return
+			}
+			gammaLive = !gammaLive
+			gammaToggles++
 		}
 		o, _ := build(vol, g.Chance(0.5))
 		obj := buildObject(o, stubA.URL)
@@ -186,6 +211,8 @@ func namesUnderUpdate(r *vkit.R) {
 	r.Eval(nUpdates)
 	r.Count("names_under_update_updates", nUpdates)
 	r.Count("names_under_update_updates_overlapped_by_lookups", overlapped)
+	r.Count("names_under_update_certificate_rotations", rotations)
+	r.Count("names_under_update_third_cluster_created_or_deleted", gammaToggles)
 	r.Count("names_under_update_lookups", int(atomic.LoadInt64(&lookups)))
 	r.Count("names_under_update_getconfig_calls", int(atomic.LoadInt64(&getconfigs)))
 	r.Count("names_under_update_chain_requests", int(atomic.LoadInt64(&chainReqs)))
